@@ -7,7 +7,7 @@ META = {
     "level": "model_checking",
     "technique": "TLA+ spec of the freezer at file-system-call granularity with durable/volatile file contents (Freezer.tla) model-checked with TLC over all crash points; real rawdb.Freezer histories with fsync positions from a hook, enumerated crash images reopened in child processes, all validated against FreezerTrace.tla",
     "text": "Freezer.tla compiles every public call (append batches with file rolls, sync, head/tail truncation, reset) and the whole open/repair procedure (checkIndex, repairIndex, the index/data slip loop, cross-table alignment) into the sequence of write/truncate/fsync/rename/unlink calls of freezer_table.go, executes it one call at a time on files with a durable and a volatile content, and lets a crash keep per file any length between the two (written or zero-filled, metadata old or new). TLC checks on bounded histories, for every crash point including crashes during repair, that reopening succeeds, all tables share one range, every readable item is the one appended at that position and everything covered by a completed sync and not truncated since is present. Binding: seeded histories run on a real freezer (64-byte data files, one compressed and one raw table, two tail-group layouts); the rawdb fsync hook gives the durable content of every file; at every fsync (just before it takes effect) and at every call end crash images are materialised and reopened by the real NewFreezer in a child process; FreezerTrace.tla follows the observed fsyncs through the spec's programs (an unexpected or a missing fsync rejects), compares real durable/current file lengths with the model's, recomputes crash+repair for every image and demands the same observable result (Ancients, Tail, every item) and the three clauses of C24.",
-    "note": "File-system model as stated by the property: per-file prefix durability, zero-filled extensions, metadata file old-or-new, or - when its encoding grew - the new bytes at the old length, create/unlink/rename durable at once. Histories are single-writer; appended blobs are 6..30 bytes and never exceed the file size limit. Three ways the pinned code refuses to reopen after a crash are modelled as what the code does (Freezer!KnownF1: virtualTail above the surviving head after an unsynced TruncateTail; KnownF2: a non-prunable table emptied beside a non-empty one is fast-forwarded and repair panics; KnownF3: torn metadata rewrite); an image that fails to open is accepted only if the specification computes exactly such a failure for it, and is reported as PENDING-FINDING C24-F1/F2/F3 (spec/store/NOTES.md); directed histories reproduce both on every run. Trusts TLC, the hook positions and the projection in harness/cmd/c24.",
+    "note": "File-system model as stated by the property: per-file prefix durability, zero-filled extensions, metadata file old-or-new, or - when its encoding grew - the new bytes at the old length, create/unlink/rename durable at once. Histories are single-writer; appended blobs are 6..30 bytes and never exceed the file size limit. Three ways the pinned code refuses to reopen after a crash are modelled as what the code does (Freezer!KnownF1: virtualTail above the surviving head after an unsynced TruncateTail; KnownF2: a non-prunable table emptied beside a non-empty one is fast-forwarded and repair panics; KnownF3: torn metadata rewrite); an image that fails to open is accepted only if the specification computes exactly such a failure for it, and is reported through known_findings C24-F1/F2/F3 (spec/store/NOTES.md); directed histories reproduce both on every run. Trusts TLC, the hook positions and the projection in harness/cmd/c24.",
     "design_ref": "3.4 C24",
 }
 
@@ -34,7 +34,7 @@ def rejects(res):
 
 
 FINDINGS = {
-    # TODO-KNOWN-FINDING: exact fingerprints are FreezerTrace!KnownFailure / Freezer!KnownF1, KnownF2
+    # exact fingerprints: FreezerTrace!KnownFailure / Freezer!KnownF1, KnownF2, KnownF3; tolerated via ctx.known_finding only
     "C24-F1": "TruncateTail above the flushed head + crash leaves virtualTail > items: NewFreezer fails (EOF)",
     "C24-F2": "a non-prunable table left with 0 items beside a non-empty one (first SyncAncient or TruncateHead(0) interrupted): NewFreezer panics on its non-zero tail",
     "C24-F3": "metadata rewrite whose RLP encoding grows by a byte, crash keeps the new bytes at the old length: undecodable metadata, NewFreezer fails",
@@ -113,9 +113,13 @@ def run(ctx):
         elif seen.get("C24-" + name, 0) == before.get("C24-" + name, 0):
             ctx.notes.append("C24-%s not reproduced by the directed history %s" % (name, script))
     for f in sorted(seen):
-        line = "PENDING-FINDING: property=C24 %s %s (%d crash images)" % (f, FINDINGS.get(f, ""), seen[f])
-        print(line)
-        ctx.notes.append(line)
+        detail = "%d crash images of this run do not reopen in exactly this way" % seen[f]
+        ctx.notes.append("%s %s: %s" % (f, FINDINGS.get(f, ""), detail))
+        # tolerated only while known_findings.json lists the finding as open
+        if not ctx.known_finding(f, detail):
+            ctx.violation("%s %s (%s) - not listed as an open known finding" % (f, FINDINGS.get(f, ""), detail),
+                          {"kind": "finding", "finding": f, "images": seen[f], "seed": ctx.seed, "tier": ctx.tier,
+                           "replay": "c24 -mode xf with the directed histories of checks/C24.py; see spec/store/NOTES.md"})
     return ctx.finish(rule="MC: all histories within the cfg bounds with a crash at any file-system call (also inside repair); XF: seeded histories x crash points x sampled per-file cuts on the real freezer",
                       assumptions=["per-file prefix durability with zero-filled extensions; metadata file old, new, or new bytes at the old length",
                                    "create/unlink/rename/directory operations durable at once",
